@@ -33,7 +33,7 @@ PROP = dict(
                      '(parameters with round-trip hypotheses CodecsOk; C16/C17/C11) - their round trip is checked by the '
                      'oracle on the real code only; image (sixel) layers; negative layer sizes; SAUCE creation date, '
                      'use_ice, font name and buffer size inside the SAUCE record (derived from the buffer on save)',
-        assumptions=['palDec (palEnc p) = ok p; fontDec (fontName f) (fontData f) = ok f; sauceDec of the written SAUCE record '
+        assumptions=['layer titles are observed through String::from_utf8_lossy (the loader decodes titles lossily since the C10 repair); lossy decoding is the identity on valid UTF-8 (theorem IcyVerif.C10.lossy_id_on_valid), which WfLayer requires', 'palDec (palEnc p) = ok p; fontDec (fontName f) (fontData f) = ok f; sauceDec of the written SAUCE record '
                      'returns an equivalent record (hypotheses of doc_rt, exercised on the real code by the oracle)',
                      'a visible cell does not carry attribute::SHORT_DATA (declared "for loading & saving only")',
                      'documents have a font in slot 0 (Buffer::new puts it there; get_font_dimensions panics without it)'],
